@@ -945,8 +945,21 @@ def run_case(case):
         pre = {k: v for k, v in pre.items() if k != "prelude"}
         for v in judge(pre, env.perform(pre), env.facts):
             out.append(Violation(v.signature, "[request %d of the case's prelude] %s" % (i, v.what)))
-    obs = env.perform(case)
-    for v in judge(case, obs, env.facts):
+    facts = env.facts
+    swap = case.get("swap")
+    if swap and all(n in OBJECT_NAMES for n in swap):
+        a, b = swap
+        env.nsd.nameserver.register(a, env.uris[b])
+        env.nsd.nameserver.register(b, env.uris[a])
+        facts = dict(facts, names=dict(facts["names"], **{a: facts["names"][b], b: facts["names"][a]}),
+                     objids=dict(facts["objids"], **{a: facts["objids"][b], b: facts["objids"][a]}))
+    try:
+        obs = env.perform(case)
+    finally:
+        if swap and all(n in OBJECT_NAMES for n in swap):
+            env.nsd.nameserver.register(swap[0], env.uris[swap[0]])
+            env.nsd.nameserver.register(swap[1], env.uris[swap[1]])
+    for v in judge(case, obs, facts):
         if case.get("prelude") and not v.signature.startswith("C20:member:") and not v.signature.startswith("C20:key:"):
             out.append(Violation(v.signature.replace("C20:", "C20:after-earlier-request:", 1), "[after %d earlier request(s): %s] %s" % (
                 len(case["prelude"]), "; ".join("%s %s opts=%r" % (p_["method"], p_["path"], p_.get("options")) for p_ in case["prelude"]), v.what)))
@@ -1096,6 +1109,10 @@ def case_strategy(draw):
         else:
             other["hdr_key"], other["query"] = wrong, "a=1"
         case["prelude"] = [other]
+        if obj in OBJECT_NAMES and draw(st.integers(0, 1)) == 0:
+            # between the earlier request and this one the name is registered anew - for the object that another name had (and the other
+            # way round): "the named object" is whatever the name server says NOW
+            case["swap"] = [obj, draw(st.sampled_from([n for n in OBJECT_NAMES if n != obj]))]
     return case
 
 
@@ -1172,6 +1189,8 @@ def _labels(case):
         l.append("query:multi-valued")
     if case.get("prelude"):
         l.append("history:earlier-request-same-process")
+        if case.get("swap"):
+            l.append("history:name-re-registered-for-another-object-in-between")
     if any(_near(o, REGISTERED, _LOWER_REG) for o, m in c["splits"]):
         l.append("near-miss:object")
     return l
